@@ -372,6 +372,28 @@ theorem fanLoop_all {run : State → ObjId → Res} (hrun : ∀ s o s', run s o 
         refine ⟨⟨seg, e, ?_⟩, k⟩
         rw [v]; simp [ha]
 
+/-- the loop of the (repaired) field assignment over live members -/
+theorem fanLoop_setOne (x : Nat) (rs : List WeakRef) {s s' : State}
+    (h : fanLoop (fun st o => .ok { st with fld := upd st.fld o x }) rs s = .ok s')
+    (ha : ∀ o, some o ∈ rs → s.alive o = true) :
+    ∀ o, s'.fld o = if some o ∈ rs then x else s.fld o := by
+  induction rs generalizing s with
+  | nil => cases h; intro o; simp
+  | cons r t ih =>
+    cases r with
+    | none =>
+      intro o
+      rw [ih (s := s) h (fun p hp => ha p (by simp [hp])) o]
+      simp
+    | some p =>
+      simp only [fanLoop, ha p (by simp), if_true, Res.bind] at h
+      intro o
+      rw [ih h (fun q hq => ha q (by simp [hq])) o]
+      by_cases e : o = p
+      · subst e; simp
+      · have : ¬ (some o = some p) := fun h' => e (Option.some.inj h')
+        simp [upd_other _ _ e, e]
+
 /-! ### reachable states -/
 
 /-- states reachable from the initial one by any finite sequence of statements -/
